@@ -63,6 +63,7 @@ type Obligation struct {
 
 type Cex struct {
 	Nondets map[string]string `json:"nondets"`
+	NondetSeq []NondetVal `json:"nondet_seq"`
 	Trace   []TraceStep       `json:"trace"`
 	Crashes []string          `json:"crashes,omitempty"`
 	Bursts  [][2]int          `json:"bursts"`
@@ -75,6 +76,15 @@ type TraceStep struct {
 	Kind   string `json:"op"`
 	Pos    string `json:"pos"`
 	Fn     string `json:"fn,omitempty"`
+	Spawn  int    `json:"spawn,omitempty"`
+}
+
+type NondetVal struct {
+	Name   string `json:"name"`
+	Thread int    `json:"t"`
+	Kind   string `json:"kind"`
+	Value  string `json:"value"`
+	Pos    string `json:"pos"`
 }
 
 func main() {
@@ -100,7 +110,12 @@ func main() {
 		nopor      = flag.Bool("nopor", false, "disable partial-order reduction and frozen-cell folding (cross-check)")
 		noloops    = flag.Bool("noloopcheck", false, "skip unwinding-assertion queries")
 	)
+	instr := flag.String("instrument", "", "write instrumented sources for replay to this directory and exit")
 	flag.Parse()
+	if *instr != "" {
+		instrumentMain(*repo, *pkgDir, *overlayDir, *instr)
+		return
+	}
 	debug.SetGCPercent(400)
 	res := &Result{Harness: *entry, Pkg: *pkgDir, Bounds: map[string]int{"R": *R, "U": *U, "K": *K, "pool": *pool}, Solver: *solver}
 	t0 := time.Now()
